@@ -58,6 +58,8 @@ class pyBQM:
         return new
 
     def add_linear(self, v: Variable, bias: Any):
+        if v is None:
+            raise ValueError("unknown variable None")
         try:
             zero = type(bias)()  # try to preserve the type
         except TypeError:
@@ -75,6 +77,8 @@ class pyBQM:
     def add_quadratic(self, u: Variable, v: Variable, bias: Any):
         if u == v:
             raise ValueError(f"{u!r} cannot have an interaction with itself")
+        if u is None or v is None:
+            raise ValueError("unknown variable None")
 
         try:
             zero = type(bias)()  # try to preserve the type
@@ -356,11 +360,16 @@ class pyBQM:
             self.remove_variable()
 
     def set_linear(self, v: Variable, bias: Any):
+        if v is None:
+            raise ValueError("unknown variable None")
         self._adj.setdefault(v, dict())[v] = bias
 
     def set_quadratic(self, u: Variable, v: Variable, bias: Any):
         if u == v:
             raise ValueError(f"{u!r} cannot have an interaction with itself")
+        if u is None or v is None:
+            raise ValueError("unknown variable None")
+        hash(v)  # an unhashable second label must raise before the first one is added
         self.add_variable(u)
         self.add_variable(v)
         self._adj[u][v] = self._adj[v][u] = bias
